@@ -994,3 +994,14 @@ func c05CycleFan() *vG {
 
 func VerifC05CycleFan() { c05CheckL(c05CycleFan(), false, 14, 11, []string{"a", "b", "d"}, 2) }
 func VerifC06CycleFan() { c05Mode = 6; c05CheckL(c05CycleFan(), false, 14, 11, []string{"a", "b", "d"}, 2) }
+
+// a join node fed by START directly and by another node: at an interrupt the value START sent is still waiting in the
+// join's channel and has to survive the checkpoint in the paradigm of the interrupted call
+func c05StartJoin() *vG {
+	return &vG{nodes: []string{"a", "b", "x"}, edges: [][2]string{{START, "a"}, {START, "x"}, {"a", "b"}, {"b", "x"}, {"x", END}}}
+}
+
+func VerifC05StartJoinPregel() { c05Check(c05StartJoin(), false, 0, 6, []string{"a", "b", "x"}) }
+func VerifC05StartJoinDAG()    { c05Check(c05StartJoin(), true, 0, 6, []string{"a", "b", "x"}) }
+func VerifC06StartJoinPregel() { c05Mode = 6; c05Check(c05StartJoin(), false, 0, 6, []string{"a", "b", "x"}) }
+func VerifC06StartJoinDAG()    { c05Mode = 6; c05Check(c05StartJoin(), true, 0, 6, []string{"a", "b", "x"}) }
